@@ -91,6 +91,16 @@ def bucket_allocator(F, R):
         ref = canon(stored[0]) if stored else None
         R.ob('SYM-EQ', 'SYM-EQ::iceoryx2_bb_memory::pool_allocator::FixedSizePoolAllocator::stride-agreement', st2 is not None and dv is not None and st2[0] == dv and (ref is None or st2[0] == ref),
              'FixedSizePoolAllocator::new: stored bucket_size = `%s`, bucket-count divisor = `%s`, PoolAllocator::new_uninit stores `%s`' % (st2[0] if st2 else None, dv, ref), st2[1].where if st2 else g.file, g)
+    # the number of buckets is counted from the ALIGNED start to the end of the block: (ptr + size - align(ptr, a)) / stride
+    cn = F.find_fns(r'^iceoryx2_bb_memory::pool_allocator::PoolAllocator::calc_number_of_buckets$')
+    if len(cn) != 1:
+        R.missing('PoolAllocator::calc_number_of_buckets')
+    else:
+        t = sym_nstr(sym(cn[0], ['c', [0]]))
+        ok = re.search(r'\(\(cast(<\w+>)?\(ptr\) \+ size\) - math::align\(cast(<\w+>)?\(ptr\), Layout::align\(bucket_layout\)\)\) /', t) is not None
+        R.ob('SYM-EQ', 'SYM-EQ::%s::bucket-count-from-aligned-start' % PA, ok, 'number of buckets = `%s` ; required ((ptr + size) - align(ptr, bucket alignment)) / stride: the buckets start at the aligned address, counting from the unaligned one yields a bucket that ends behind the block' % t[:220], '%s:%s' % (cn[0].file, cn[0].line), cn[0])
+        users = [c for c in F.callers_of(r'PoolAllocator::calc_number_of_buckets$') if c.fn.id.endswith('::new_uninit')]
+        R.ob('FLOW', 'FLOW::%s::new_uninit-sizes-the-index-set-with-the-bucket-count' % PA, len(users) == 1 and any('calc_number_of_buckets' in sym_nstr(sym(nu, c.args[0])) for c in nu.calls(r'UniqueIndexSet( as .*)?>?::new_uninit$')), 'UniqueIndexSet::new_uninit(calc_number_of_buckets(..)) in new_uninit', users[0].where if users else nu.file, nu)
     # start is aligned to the bucket alignment
     for a in agg_sites(nu, r'pool_allocator::PoolAllocator$'):
         names = a.node[2][1][3]
@@ -216,6 +226,11 @@ def bump(F, R):
             R.ob('LOOP', 'LOOP::%s::bounds-test-per-retry' % fnkey(f), p is None and all(f.dominates(g, c.site) for c in cas), 'the bounds test dominates the CAS and is re-evaluated after a failed CAS', g.where, f)
     if rc:
         R.ob('CMP', 'CMP::%s::bounds-shape' % fnkey(f), rc[1] == '>' and 'full_memory_size' in rc[2] and 'Layout::size' in rc[0], 'refusal condition `%s %s %s`' % rc[:3], rc[3].where, f)
+    if rc and cas:
+        # the tested quantity is exactly the new end of the used area (the value the CAS installs): testing the unaligned position lets the
+        # alignment padding run past the end
+        newv = sym_nstr(sym(f, cas[0].site.args[2]))
+        R.ob('SYM-EQ', 'SYM-EQ::%s::bounds-test-on-the-installed-end' % fnkey(f), rc[0] == newv, 'bounds test compares `%s` ; the CAS installs `%s` ; required: the same term (aligned start + size)' % (rc[0][:160], newv[:160]), rc[3].where, f)
     z = agg_sites(f, r'AllocationError$', 'SizeIsZero')
     check_before_effects(R, f, z, ok_arms, 'zero-size-test<successful-position-CAS', 'a zero sized request is refused')
 
